@@ -23,7 +23,7 @@ import gc
 
 from harness import *  # noqa
 
-_FROZEN = False
+_FROZEN = 0
 
 # (name, source, needs, defines, drops, kind)   kind: 'make' | 'write' | 'del'
 OPS = [
@@ -271,10 +271,12 @@ def _write_step(env, src, name, origin, replaced, hist, fails):
 
 def evaluate(case):
     global _FROZEN
-    if not _FROZEN:
+    _FROZEN += 1
+    if _FROZEN % 1000 == 1:
+        # park everything allocated so far (interpreter, serif, the driver's own bookkeeping) in the permanent
+        # generation so that the histories' own gc.collect() calls stay cheap; semantics unchanged
         gc.collect()
-        gc.freeze()           # keeps the per-history gc.collect() cheap; semantics unchanged
-        _FROZEN = True
+        gc.freeze()
     fails = []
     env = {}
     origin = {}               # handle -> operation that created the object
